@@ -41,7 +41,8 @@ fn next_float_up(v: Float) -> Float {
     }
     let mut ui = v.to_bits();
     if ui == MINUS_ZERO {
-        return 0.0;
+        // -0.0 and 0.0 are the same number: step up from 0.0
+        ui = ZERO;
     }
 
     // Advance _v_ to next higher float
@@ -59,7 +60,8 @@ fn next_float_down(v: Float) -> Float {
     }
     let mut ui = v.to_bits();
     if ui == ZERO {
-        return 0.0;
+        // 0.0 and -0.0 are the same number: step down from -0.0
+        ui = MINUS_ZERO;
     }
     if v > 0. {
         ui -= 1;
